@@ -56,12 +56,14 @@ def _(self: Obj['rbql_engine.SumAggregator']):
     modifies(self)
 
 
-@contract('rbql_engine.SumAggregator.increment', name='C03.sum.increment', props=['C03'])
+@contract('rbql_engine.SumAggregator.increment', name='C03.sum.increment', props=['C03', 'C14'])
 def _(self: Obj['rbql_engine.SumAggregator'], key: Key, val: Cell):
     requires(sum_inv(self) and nh_ok(self.num_handler, val), 'inv')
     ghost_update(self.hist, map_set(old(self.hist), key, old(self.hist)[key] + [val]))
     ensures(sum_inv(self), 'running_sum_is_the_sum_of_the_group')
     ensures(self.num_handler.string_detection_done and self.num_handler.is_str == is_str(val), 'handler_kind')
+    # C14: a value that is not a number is rejected here, while its record is being processed (so the error can name it)
+    ensures(not (is_str(val) and not float_ok(sval(val))), 'non_numeric_value_is_rejected_at_increment')
     raises('rbql_engine.RbqlRuntimeError', is_str(val) and not float_ok(sval(val)), 'non_numeric_value')
     modifies(field(self, 'hist'), self.stats, self.num_handler)
 
@@ -129,12 +131,14 @@ def _(self: Obj['rbql_engine.MinAggregator']):
     modifies(self)
 
 
-@contract('rbql_engine.MinAggregator.increment', name='C03.min.increment', props=['C03'])
+@contract('rbql_engine.MinAggregator.increment', name='C03.min.increment', props=['C03', 'C14'])
 def _(self: Obj['rbql_engine.MinAggregator'], key: Key, val: Cell):
     requires(min_inv(self) and nh_ok(self.num_handler, val), 'inv')
     ghost_update(self.hist, map_set(old(self.hist), key, old(self.hist)[key] + [val]))
     ensures(min_inv(self), 'running_min_is_the_minimum_of_the_group')
     ensures(self.num_handler.string_detection_done and self.num_handler.is_str == is_str(val), 'handler_kind')
+    # C14: a value that is not a number is rejected here, while its record is being processed (so the error can name it)
+    ensures(not (is_str(val) and not float_ok(sval(val))), 'non_numeric_value_is_rejected_at_increment')
     raises('rbql_engine.RbqlRuntimeError', is_str(val) and not float_ok(sval(val)), 'non_numeric_value')
     modifies(field(self, 'hist'), self.stats, self.num_handler)
 
@@ -152,12 +156,14 @@ def _(self: Obj['rbql_engine.MaxAggregator']):
     modifies(self)
 
 
-@contract('rbql_engine.MaxAggregator.increment', name='C03.max.increment', props=['C03'])
+@contract('rbql_engine.MaxAggregator.increment', name='C03.max.increment', props=['C03', 'C14'])
 def _(self: Obj['rbql_engine.MaxAggregator'], key: Key, val: Cell):
     requires(max_inv(self) and nh_ok(self.num_handler, val), 'inv')
     ghost_update(self.hist, map_set(old(self.hist), key, old(self.hist)[key] + [val]))
     ensures(max_inv(self), 'running_max_is_the_maximum_of_the_group')
     ensures(self.num_handler.string_detection_done and self.num_handler.is_str == is_str(val), 'handler_kind')
+    # C14: a value that is not a number is rejected here, while its record is being processed (so the error can name it)
+    ensures(not (is_str(val) and not float_ok(sval(val))), 'non_numeric_value_is_rejected_at_increment')
     raises('rbql_engine.RbqlRuntimeError', is_str(val) and not float_ok(sval(val)), 'non_numeric_value')
     modifies(field(self, 'hist'), self.stats, self.num_handler)
 
@@ -186,12 +192,14 @@ def _(self: Obj['rbql_engine.AvgAggregator']):
     modifies(self)
 
 
-@contract('rbql_engine.AvgAggregator.increment', name='C03.avg.increment', props=['C03'])
+@contract('rbql_engine.AvgAggregator.increment', name='C03.avg.increment', props=['C03', 'C14'])
 def _(self: Obj['rbql_engine.AvgAggregator'], key: Key, val: Cell):
     requires(avg_inv(self) and nh_ok(self.num_handler, val), 'inv')
     ghost_update(self.hist, map_set(old(self.hist), key, old(self.hist)[key] + [val]))
     ensures(avg_inv(self), 'running_sum_and_count_of_the_group')
     ensures(self.num_handler.string_detection_done and self.num_handler.is_str == is_str(val), 'handler_kind')
+    # C14: a value that is not a number is rejected here, while its record is being processed (so the error can name it)
+    ensures(not (is_str(val) and not float_ok(sval(val))), 'non_numeric_value_is_rejected_at_increment')
     raises('rbql_engine.RbqlRuntimeError', is_str(val) and not float_ok(sval(val)), 'non_numeric_value')
     modifies(field(self, 'hist'), self.stats, self.num_handler)
 
@@ -216,12 +224,14 @@ def _(self: Obj['rbql_engine.VarianceAggregator']):
     modifies(self)
 
 
-@contract('rbql_engine.VarianceAggregator.increment', name='C03.var.increment', props=['C03'])
+@contract('rbql_engine.VarianceAggregator.increment', name='C03.var.increment', props=['C03', 'C14'])
 def _(self: Obj['rbql_engine.VarianceAggregator'], key: Key, val: Cell):
     requires(var_inv(self) and nh_ok(self.num_handler, val), 'inv')
     ghost_update(self.hist, map_set(old(self.hist), key, old(self.hist)[key] + [val]))
     ensures(var_inv(self), 'running_sum_squares_count_of_the_group')
     ensures(self.num_handler.string_detection_done and self.num_handler.is_str == is_str(val), 'handler_kind')
+    # C14: a value that is not a number is rejected here, while its record is being processed (so the error can name it)
+    ensures(not (is_str(val) and not float_ok(sval(val))), 'non_numeric_value_is_rejected_at_increment')
     raises('rbql_engine.RbqlRuntimeError', is_str(val) and not float_ok(sval(val)), 'non_numeric_value')
     modifies(field(self, 'hist'), self.stats, self.num_handler)
 
@@ -262,12 +272,14 @@ def _(self: Obj['rbql_engine.MedianAggregator']):
     modifies(self)
 
 
-@contract('rbql_engine.MedianAggregator.increment', name='C03.median.increment', props=['C03'], store_policy='none')
+@contract('rbql_engine.MedianAggregator.increment', name='C03.median.increment', props=['C03', 'C14'], store_policy='none')
 def _(self: Obj['rbql_engine.MedianAggregator'], key: Key, val: Cell):
     requires(median_inv(self) and nh_ok(self.num_handler, val), 'inv')
     ghost_update(self.hist, map_set(old(self.hist), key, old(self.hist)[key] + [val]))
     ensures(median_inv(self), 'values_of_the_group_in_order')
     ensures(self.num_handler.string_detection_done and self.num_handler.is_str == is_str(val), 'handler_kind')
+    # C14: a value that is not a number is rejected here, while its record is being processed (so the error can name it)
+    ensures(not (is_str(val) and not float_ok(sval(val))), 'non_numeric_value_is_rejected_at_increment')
     raises('rbql_engine.RbqlRuntimeError', is_str(val) and not float_ok(sval(val)), 'non_numeric_value')
     modifies(field(self, 'hist'), self.stats, self.num_handler, anylist())
 
@@ -340,8 +352,8 @@ def _(self: Obj['rbql_engine.ConstGroupVerifier'], key: Key, value: Cell):
     ghost_update(self.hist, map_set(old(self.hist), key, old(self.hist)[key] + [value]))
     ensures(const_inv(self), 'inv')
     # a non-aggregate column must be constant within each group, otherwise the query fails
-    ensures(implies(has_key(old(self.const_values), key), py_equal(old(self.const_values)[key], value)), 'accepted_only_if_equal_to_the_group_value')
-    raises('rbql_engine.RbqlRuntimeError', has_key(old(self.const_values), key) and not py_equal(old(self.const_values)[key], value), 'fails_on_a_different_value')
+    ensures(implies(old(has_key(self.const_values, key)), py_equal(old(self.const_values[key]), value)), 'accepted_only_if_equal_to_the_group_value')
+    raises('rbql_engine.RbqlRuntimeError', old(has_key(self.const_values, key)) and not py_equal(old(self.const_values[key]), value), 'fails_on_a_different_value')
     modifies(field(self, 'hist'), self.const_values)
 
 
